@@ -662,10 +662,11 @@ def acyclic_by_construction(ctx, LF, field):
 def _classes_by_type_id(ctx, f, e):
     """Classes of a loop variable whose elements were selected by their type id:
     `for x in xs` with `xs = [y for ... if y.get_type() in (A_TYPE_ID, ..) ...]`
-    (or `== A_TYPE_ID`).  The classes are those of the FortranObj cone whose
-    get_type() returns one of the constants, plus every class whose get_type()
-    is not a single constant (it may answer anything).  None when the selection
-    is not of that form."""
+    (or `== A_TYPE_ID`), or with `xs = producer(..)` where the producer appends
+    elements to the list it returns under such tests.  The classes are those of
+    the FortranObj cone whose get_type() returns one of the constants, plus every
+    class whose get_type() is not a single constant (it may answer anything).
+    None when the selection is not of that form."""
     from .c07 import _class_type_id, _type_ids
     from .shared import single_def
 
@@ -677,10 +678,45 @@ def _classes_by_type_id(ctx, f, e):
     it = loops[0].iter
     if isinstance(it, ast.Name):
         it = single_def(ctx, f, it.id)
-    if not isinstance(it, (ast.ListComp, ast.GeneratorExp)) or not isinstance(it.elt, ast.Name):
+    conds = []  # conjuncts every selected element satisfied
+    el = None
+    if isinstance(it, (ast.ListComp, ast.GeneratorExp)) and isinstance(it.elt, ast.Name):
+        el = it.elt.id
+        for g in it.generators:
+            for cond in g.ifs:
+                conds.extend(cond.values if isinstance(cond, ast.BoolOp) and isinstance(cond.op, ast.And) else [cond])
+    elif isinstance(it, ast.Call):
+        kind, tg = ctx.r.resolve_call(f, it)
+        tg = [q for q in tg if q in ctx.m.funcs]
+        if len(tg) != 1 or kind in ("external", "unknown", "by_name"):
+            return None
+        g = ctx.m.funcs[tg[0]]
+        rets = [r for r in ctx.m.walk_own(g.node) if isinstance(r, ast.Return)]
+        if len(rets) != 1 or not isinstance(rets[0].value, ast.Name):
+            return None
+        lst = rets[0].value.id
+        apps = [c for c in ast.walk(g.node) if isinstance(c, ast.Call) and isinstance(c.func, ast.Attribute) and c.func.attr == "append" and isinstance(c.func.value, ast.Name) and c.func.value.id == lst]
+        if len(apps) != 1 or len(apps[0].args) != 1 or not isinstance(apps[0].args[0], ast.Name):
+            return None
+        el = apps[0].args[0].id
+        node = apps[0]
+        p_ = ctx.m.parent.get(node)
+        while p_ is not None and p_ is not g.node:
+            if isinstance(p_, ast.If) and any(node is x for b_ in p_.body for x in ast.walk(b_)):
+                conds.extend(p_.test.values if isinstance(p_.test, ast.BoolOp) and isinstance(p_.test.op, ast.And) else [p_.test])
+            p_ = ctx.m.parent.get(p_)
+        # single-assignment locals inside the tests (`t = x.get_type()` ... `if t in (...)`)
+        class _Sub(ast.NodeTransformer):
+            def visit_Name(self, n):
+                v = single_def(ctx, g, n.id) if isinstance(n.ctx, ast.Load) else None
+                return v if v is not None and isinstance(v, ast.Call) else n
+
+        import copy as _copy
+
+        conds = [_Sub().visit(_copy.deepcopy(c)) for c in conds]
+    else:
         return None
     ids = _type_ids(ctx)
-    el = it.elt.id
 
     def const_set(x):
         if isinstance(x, ast.Name) and x.id in ids:
@@ -702,15 +738,13 @@ def _classes_by_type_id(ctx, f, e):
 
     allowed = None
     truthy_methods = []
-    for g in it.generators:
-        for cond in g.ifs:
-            for t in cond.values if isinstance(cond, ast.BoolOp) and isinstance(cond.op, ast.And) else [cond]:
-                if isinstance(t, ast.Call) and isinstance(t.func, ast.Attribute) and isinstance(t.func.value, ast.Name) and t.func.value.id == el and not t.args and not t.keywords:
-                    truthy_methods.append(t.func.attr)
-                if isinstance(t, ast.Compare) and len(t.ops) == 1 and isinstance(t.ops[0], (ast.In, ast.Eq)) and unparse(t.left) == f"{el}.get_type()":
-                    cs = const_set(t.comparators[0])
-                    if cs is not None:
-                        allowed = cs if allowed is None else (allowed & cs)
+    for t in conds:
+        if isinstance(t, ast.Call) and isinstance(t.func, ast.Attribute) and isinstance(t.func.value, ast.Name) and t.func.value.id == el and not t.args and not t.keywords:
+            truthy_methods.append(t.func.attr)
+        if isinstance(t, ast.Compare) and len(t.ops) == 1 and isinstance(t.ops[0], (ast.In, ast.Eq)) and unparse(t.left) == f"{el}.get_type()":
+            cs = const_set(t.comparators[0])
+            if cs is not None:
+                allowed = cs if allowed is None else (allowed & cs)
     if allowed is None:
         return None
     base = ctx.m.cname.get("FortranObj")
